@@ -149,7 +149,8 @@ def walk_record(ordinal, steps, s, e, total, tags=True, cg=True):
     if tags:
         opt += ["tp:A:P", "NM:i:0"]
     if cg:
-        opt.append("cg:Z:" + cig)
+        # the CIGAR field sits last, in the middle or first, by record ordinal
+        opt.insert((len(opt), 1, 0)[ordinal % 3] if tags else 0, "cg:Z:" + cig)
     return rgfa.Rec(f"r{ordinal}", n + 2, 1, 1 + n, "+", rgfa.steps_str(steps), total, s, e, matches, n, 60, opt)
 
 
